@@ -369,7 +369,8 @@ func runC09(c *fw.Ctx) {
 			if pal > 0 && ci > 0 && !c.Thorough() {
 				continue
 			}
-			wins := [][2]int64{{0, 0}, {now - 2, now - 1}, {now - r0 - 1, 0}, {now - rmax - 4, now - rmax + 2}}
+			// {now-3, now-2}: inside ONE slot of the coarser archive whatever the clock's parity (a zero-length range there)
+			wins := [][2]int64{{0, 0}, {now - 2, now - 1}, {now - r0 - 1, 0}, {now - rmax - 4, now - rmax + 2}, {now - 3, now - 2}}
 			for si, s := range codes {
 				for di, d := range codes {
 					if pal > 0 && !c.Thorough() && (di*7+si)%9 != 0 {
